@@ -1,5 +1,5 @@
 /-! Spike: protobuf varint encode/decode round trip (C20-T1 kernel). -/
-namespace Fsm.W
+namespace Fsm.V
 
 /-- protohelpers.EncodeVarint, as a byte list -/
 def encVar (n : Nat) : List Nat :=
@@ -69,4 +69,4 @@ theorem varint_roundtrip (n : Nat) (hn : n < 2^64) (rest : List Nat) :
     omega) (by simpa using hn)
   simpa using h
 
-end Fsm.W
+end Fsm.V
